@@ -783,7 +783,7 @@ func (r *Runner) modeStatic(group, name string, filter string, bounds Bounds, co
 	if r.Spec.Timeout != nil {
 		solverTimeout = r.Spec.Timeout(r.Tier)
 	}
-	opts := RunOpts{Bounds: bounds, Workers: r.Workers, CrossCheck: r.Tier == "thorough", Filter: regexp.MustCompile(filter), Conc: conc, Filter2: r.Filter, RunInit: true}
+	opts := RunOpts{Bounds: bounds, Workers: r.Workers, CrossCheck: r.Tier == "thorough", Filter: regexp.MustCompile(filter), Conc: conc, Filter2: r.Filter, RunInit: true, DumpDir: os.Getenv("VERIF_DUMP")}
 	res := runHarnesses(ld, opts)
 	r.Programs += len(res)
 	r.Results = append(r.Results, res...)
